@@ -71,10 +71,10 @@ c.ensures("implies(ssl_context.check_hostname is True, uf('name_ok', server_host
 c.raises("BaseException", ensures="ghost.wrapped is old(ghost.wrapped)")
 c.result_hint = "ssl.SSLSocket"
 
-c = contract("ssl.SSLSocket.getpeercert").params("self", "binary_form").assumed("the peer certificate (dict or DER bytes)")
+c = contract("ssl.SSLSocket.getpeercert").params("self", "binary_form").assumed("the peer certificate (dict or DER bytes); may fail or be interrupted")
 c.modifies()
 c.ensures("True")
-c.raises("Exception")
+c.raises("BaseException")
 
 c = contract("socket.socket.close").params("self").assumed("closes the TLS socket; counted in ghost.closed; assumed not to raise")
 c.ghost("closed")
@@ -101,6 +101,7 @@ c.raises("CertificateError")
 c = contract(f"{M}._ssl_wrap_socket_and_match_hostname", prop="C07")
 c.types(sock="any", cert_reqs="any", ssl_version="any", ssl_minimum_version="any", ssl_maximum_version="any", cert_file="any", key_file="any", key_password="any",
         ca_certs="any", ca_cert_dir="any", ca_cert_data="any", assert_hostname="any", assert_fingerprint="opt:str", server_hostname="str", ssl_context="opt:ssl.SSLContext", tls_in_tls="bool")
+c.symbolic_globals = {"urllib3.util.ssl_.IS_PYOPENSSL", "urllib3.util.ssl_.HAS_NEVER_CHECK_COMMON_NAME"}      # proved for both TLS backends / both OpenSSL generations
 for g in ("chain_ok", "fp_ok", "sni", "closed", "wrapped"):
     c.ghost(g)
 c.requires("cert_reqs is None or isinstance(cert_reqs, str) or is_int(cert_reqs)")
@@ -115,6 +116,106 @@ c.ensures(f"implies(not assert_fingerprint and {REQS} != 0 and assert_hostname i
           "hostname-matched-unless-disabled-or-CERT_NONE-or-pinned")
 c.ensures("ghost.sni == server_hostname or (uf('is_ip', ghost.sni) is True and len(ghost.sni) <= len(server_hostname))", "the-name-given-to-the-handshake-is-the-requested-host-or-its-bare-IP-form")
 c.ensures(f"result.is_verified is ({REQS} == 2 or bool(assert_fingerprint))", "reported-verified-only-with-CERT_REQUIRED-or-a-pin")
-c.ensures("ghost.closed == old(ghost.closed)", "a-returned-socket-is-open")
+c.ensures("ghost.closed == old(ghost.closed) and isinstance(result.socket, K('ssl.SSLSocket'))", "a-returned-socket-is-open")
 c.raises("BaseException")
 c.exc_ensures("implies(ghost.wrapped == old(ghost.wrapped) + 1, ghost.closed == old(ghost.closed) + 1)", "a-failure-after-the-handshake-closes-the-socket")
+
+# ------------------------------------------------------------------------------------------------ HTTPSConnection.connect
+HS = "urllib3.connection.HTTPSConnection"
+field(HS, "ssl_context", CTX)
+field(HS, "proxy", "urllib3.util.url.Url")
+
+c = contract("urllib3.http2.probe._HTTP2ProbeCache.acquire_and_get").assumed("HTTP/2 probe cache: True / False / None (this thread probes)")
+c.types(host="any", port="any")
+c.modifies()
+c.ensures("result is None or isinstance(result, bool)")
+c = contract("urllib3.http2.probe._HTTP2ProbeCache.set_and_release").assumed("HTTP/2 probe cache: records the probe result; assumed not to raise")
+c.types(host="any", port="any", supports_http2="any")
+c.modifies()
+c.ensures("True")
+
+c = contract("urllib3.connection.HTTPConnection._new_conn").assumed("opens the TCP connection (a plain socket); may raise")
+c.modifies()
+c.allocates = True
+c.ensures("fresh(result) and isinstance(result, K('socket.socket'))")
+c.raises("BaseException")
+c.result_hint = "socket.socket"
+
+c = contract(f"{HS}._connect_tls_proxy").assumed("TLS to the proxy itself (through the same _ssl_wrap_socket_and_match_hostname, with the proxy's settings); sets proxy_is_verified; may raise")
+c.types(hostname="any", sock="any")
+c.modifies("self.proxy_is_verified")
+c.allocates = True
+c.ensures("fresh(result) and isinstance(result, K('ssl.SSLSocket')) and isinstance(self.proxy_is_verified, bool)")
+c.raises("BaseException")
+c.result_hint = "ssl.SSLSocket"
+
+c = contract("http.client.HTTPConnection._tunnel").params("self").assumed("CONNECT exchange with the proxy on the current socket; may raise")
+c.modifies()
+c.ensures("True")
+c.raises("BaseException")
+
+c = contract("datetime.date.today").params().assumed("today's date")
+c.modifies()
+c.ensures("True")
+c.result_hint = "datetime.date"
+
+c = contract("ssl.SSLSocket.selected_alpn_protocol").params("self").assumed("negotiated ALPN protocol or None")
+c.modifies()
+c.ensures("result is None or isinstance(result, str)")
+
+c = contract("threading.get_ident").params().assumed("thread id")
+c.modifies()
+c.ensures("is_int(result)")
+
+c = contract("warnings.warn").params("message", "category", "stacklevel").assumed("records a warning (ghost.warned counts InsecureRequestWarning); raises the warning as an exception when the filter says 'error'")
+c.ghost("warned")
+c.requires("is_int(ghost.warned)")
+c.modifies("ghost.warned")
+c.ensures("is_int(ghost.warned) and ghost.warned == old(ghost.warned) + (1 if category is K('urllib3.exceptions.InsecureRequestWarning') else 0)")
+c.raises("Warning", ensures="is_int(ghost.warned) and ghost.warned == old(ghost.warned) + (1 if category is K('urllib3.exceptions.InsecureRequestWarning') else 0)")
+
+c = contract(f"{HS}.connect", prop="C07")
+for g in ("chain_ok", "fp_ok", "sni", "closed", "wrapped", "warned"):
+    c.ghost(g)
+c.requires("is_int(ghost.closed) and is_int(ghost.wrapped) and is_int(ghost.warned)")
+c.requires("isinstance(self._dns_host, str) and (self.server_hostname is None or isinstance(self.server_hostname, str)) and (self._tunnel_host is None or isinstance(self._tunnel_host, str))")
+c.requires("self._connect_callback is None")
+c.requires("self.cert_reqs is None or isinstance(self.cert_reqs, str) or is_int(self.cert_reqs)")
+c.requires("self.assert_hostname is None or self.assert_hostname is False or isinstance(self.assert_hostname, str)")
+c.requires("self.assert_fingerprint is None or isinstance(self.assert_fingerprint, str)")
+c.requires("implies(self.ssl_context is not None, isinstance(self.ssl_context.check_hostname, bool) and is_int(self.ssl_context.verify_mode))")
+c.modifies("self.sock", "self.is_verified", "self.proxy_is_verified", "self._has_connected_to_proxy", "ghost.sni", "ghost.closed", "ghost.wrapped", "ghost.warned", "*.verify_mode", "*.check_hostname")
+c.site_assert("_ssl_wrap_socket_and_match_hostname",
+              "cert_reqs is caller_self.cert_reqs and assert_hostname is caller_self.assert_hostname and assert_fingerprint is caller_self.assert_fingerprint and ssl_context is caller_self.ssl_context"
+              " and ca_certs is caller_self.ca_certs and ca_cert_dir is caller_self.ca_cert_dir and ca_cert_data is caller_self.ca_cert_data",
+              "the-connection's-verification-settings-reach-the-decision-unchanged")
+c.site_assert("_ssl_wrap_socket_and_match_hostname",
+              "server_hostname == (caller_self.server_hostname if caller_self.server_hostname is not None else (caller_self._tunnel_host if caller_self._tunnel_host is not None else caller_self.host)).rstrip('.')",
+              "the-name-checked-is-the-override-else-the-tunnel-target-else-the-host-without-trailing-dots")
+c.ensures("self.is_verified is False or (self.is_verified is True and (uf('resolve_reqs', self.cert_reqs) == 2 or bool(self.assert_fingerprint)) and not (bool(self.proxy) and self._tunnel_host is None))",
+          "reported-verified-only-with-CERT_REQUIRED-or-a-pin-and-never-through-a-forwarding-proxy")
+c.ensures("self.sock is not None", "connected")
+c.ensures("is_int(ghost.warned) and ghost.warned == old(ghost.warned)", "connect-itself-issues-no-InsecureRequestWarning")
+c.raises("BaseException")
+
+# ------------------------------------------------------------------------------------------------ HTTPSConnectionPool._validate_conn
+HP = "urllib3.connectionpool.HTTPSConnectionPool"
+c = contract(f"{HS}.connect")          # used at its contract above by _validate_conn
+
+c = contract(f"{HP}._validate_conn", prop="C07", variant="warning")
+c.types(conn=HS)
+for g in ("chain_ok", "fp_ok", "sni", "closed", "wrapped", "warned"):
+    c.ghost(g)
+c.requires("is_int(ghost.closed) and is_int(ghost.wrapped) and is_int(ghost.warned)")
+c.requires("isinstance(conn._dns_host, str) and (conn.server_hostname is None or isinstance(conn.server_hostname, str)) and (conn._tunnel_host is None or isinstance(conn._tunnel_host, str))")
+c.requires("conn._connect_callback is None")
+c.requires("conn.cert_reqs is None or isinstance(conn.cert_reqs, str) or is_int(conn.cert_reqs)")
+c.requires("conn.assert_hostname is None or conn.assert_hostname is False or isinstance(conn.assert_hostname, str)")
+c.requires("conn.assert_fingerprint is None or isinstance(conn.assert_fingerprint, str)")
+c.requires("implies(conn.ssl_context is not None, isinstance(conn.ssl_context.check_hostname, bool) and is_int(conn.ssl_context.verify_mode))")
+c.modifies("conn.sock", "conn.is_verified", "conn.proxy_is_verified", "conn._has_connected_to_proxy", "ghost.sni", "ghost.closed", "ghost.wrapped", "ghost.warned", "*.verify_mode", "*.check_hostname")
+c.ensures("conn.sock is not None", "the-handshake-is-forced-before-the-request")
+c.ensures("implies(not conn.is_verified and not conn.proxy_is_verified, ghost.warned == old(ghost.warned) + 1)", "an-unverified-connection-always-triggers-InsecureRequestWarning")
+c.ensures("implies(conn.is_verified is True and old(conn.sock) is None, (uf('resolve_reqs', conn.cert_reqs) == 2 or bool(conn.assert_fingerprint)))",
+          "a-connection-established-here-is-reported-verified-only-with-CERT_REQUIRED-or-a-pin")
+c.raises("BaseException")
